@@ -162,7 +162,17 @@ func scalingProgram(r *core.Rng) ([]ast.Node, string) {
 	}
 	var loop ast.Node
 	kind := ""
-	switch r.Intn(6) {
+	switch r.Intn(7) {
+	case 6:
+		// a generator function called directly (no for loop around it): its yields have no consumer
+		kind = "direct-generator-call"
+		loop = ast.Block{Stmts: []ast.Node{ast.Assign{Name: "zg", Value: ast.FuncLit{Params: []string{"zn"}, Body: ast.Block{Stmts: []ast.Node{
+			ast.Assign{Name: "zi", Value: ast.IntLit{V: 0}},
+			ast.While{Cond: ast.Binary{Op: "<", L: ast.Name{N: "zi"}, R: ast.Name{N: "zn"}}, Body: ast.Block{Stmts: []ast.Node{
+				ast.Yield{X: ast.Binary{Op: "*", L: ast.Name{N: "zi"}, R: ast.IntLit{V: 2}}},
+				ast.Assign{Name: "zi", Value: ast.Binary{Op: "+", L: ast.Name{N: "zi"}, R: ast.IntLit{V: 1}}},
+				bodyStmt()}}},
+			ast.Name{N: "zi"}}}}}, ast.Call{Fn: "zg", Args: []ast.Node{magic}}}}
 	case 0:
 		kind = "while"
 		loop = ast.Block{Stmts: []ast.Node{ast.Assign{Name: "zi", Value: ast.IntLit{V: 0}},
